@@ -312,11 +312,11 @@ package encoding
 //@   loop 0 invariant dynType(structType) != 0
 //@   loop 0 decreases rvNumField(structVal) - i
 //@   loop 1 invariant rangeindex >= -1
-//@   loop 1 invariant rangeindex < len(parts) - 1
-//@   loop 1 invariant forall(j, 1, rangeindex + 2, splitAt(tag, ",", j) != "omitempty")
-//@   loop 1 alt invariant k >= 1 && forall(j, 1, k, splitAt(tag, ",", j) != "omitempty")
+//@   loop 1 invariant rangeindex <= splitN(tag, ",")
+//@   loop 1 invariant forall(q, 1, rangeindex + 2, splitAt(tag, ",", q) != "omitempty")
+//@   loop 1 alt invariant k >= 1 && k <= splitN(tag, ",") + 1 && forall(q, 1, k, splitAt(tag, ",", q) != "omitempty")
 //@   loop 2 invariant rangeindex >= -1
-//@   loop 2 invariant rangeindex < len(embeds)
+//@   loop 2 invariant rangeindex <= len(embeds)
 //@   loop 2 invariant embedsOK(embeds)
 //@   loop 2 invariant len(embeds) > 0 ==> exists(j, 0, rvNumField(structVal), wkMerged(structType, j))
 //@   loop 2 invariant noDupInts(rawMap.Keys)
@@ -325,6 +325,15 @@ package encoding
 //@   loop 2 invariant wkAllConsumedCBOR(rawMap, structType, rvNumField(structVal))
 //@   loop 2 invariant forall(j, 0, rvNumField(structVal), wkDeclared(structType, j, "cbor") && !wkOmit(structType, j, "cbor") ==> old(inDom(rawMap.Fields, wkKeyInt(structType, j))))
 //@   loop 2 invariant refOf(rawMap.Keys) == refOf(old(rawMap.Keys))
+//@   loop 2 alt invariant k >= 0
+//@   loop 2 alt invariant embedsOK(embeds)
+//@   loop 2 alt invariant len(embeds) > 0 ==> exists(j, 0, rvNumField(structVal), wkMerged(structType, j))
+//@   loop 2 alt invariant noDupInts(rawMap.Keys)
+//@   loop 2 alt invariant structType == wkT(structType0) && structVal == wkV(structType0, structVal0)
+//@   loop 2 alt invariant rawMap.Fields == old(rawMap.Fields) && wkShrinksCBOR(rawMap)
+//@   loop 2 alt invariant wkAllConsumedCBOR(rawMap, structType, rvNumField(structVal))
+//@   loop 2 alt invariant forall(j, 0, rvNumField(structVal), wkDeclared(structType, j, "cbor") && !wkOmit(structType, j, "cbor") ==> old(inDom(rawMap.Fields, wkKeyInt(structType, j))))
+//@   loop 2 alt invariant refOf(rawMap.Keys) == refOf(old(rawMap.Keys))
 
 //@ func encoding.doPopulateStructFromJSON
 //@   property C05 C06 C15 C12
@@ -351,11 +360,11 @@ package encoding
 //@   loop 0 invariant dynType(structType) != 0
 //@   loop 0 decreases rvNumField(structVal) - i
 //@   loop 1 invariant rangeindex >= -1
-//@   loop 1 invariant rangeindex < len(parts) - 1
-//@   loop 1 invariant forall(j, 1, rangeindex + 2, splitAt(tag, ",", j) != "omitempty")
-//@   loop 1 alt invariant k >= 1 && forall(j, 1, k, splitAt(tag, ",", j) != "omitempty")
+//@   loop 1 invariant rangeindex <= splitN(tag, ",")
+//@   loop 1 invariant forall(q, 1, rangeindex + 2, splitAt(tag, ",", q) != "omitempty")
+//@   loop 1 alt invariant k >= 1 && k <= splitN(tag, ",") + 1 && forall(q, 1, k, splitAt(tag, ",", q) != "omitempty")
 //@   loop 2 invariant rangeindex >= -1
-//@   loop 2 invariant rangeindex < len(embeds)
+//@   loop 2 invariant rangeindex <= len(embeds)
 //@   loop 2 invariant embedsOK(embeds)
 //@   loop 2 invariant len(embeds) > 0 ==> exists(j, 0, rvNumField(structVal), wkMerged(structType, j))
 //@   loop 2 invariant noDupStrings(rawMap.Keys)
@@ -364,6 +373,15 @@ package encoding
 //@   loop 2 invariant wkAllConsumedJSON(rawMap, structType, rvNumField(structVal))
 //@   loop 2 invariant forall(j, 0, rvNumField(structVal), wkDeclared(structType, j, "json") && !wkOmit(structType, j, "json") ==> old(inDom(rawMap.Fields, wkKeyStr(structType, j, "json"))))
 //@   loop 2 invariant refOf(rawMap.Keys) == refOf(old(rawMap.Keys))
+//@   loop 2 alt invariant k >= 0
+//@   loop 2 alt invariant embedsOK(embeds)
+//@   loop 2 alt invariant len(embeds) > 0 ==> exists(j, 0, rvNumField(structVal), wkMerged(structType, j))
+//@   loop 2 alt invariant noDupStrings(rawMap.Keys)
+//@   loop 2 alt invariant structType == wkT(structType0) && structVal == wkV(structType0, structVal0)
+//@   loop 2 alt invariant rawMap.Fields == old(rawMap.Fields) && wkShrinksJSON(rawMap)
+//@   loop 2 alt invariant wkAllConsumedJSON(rawMap, structType, rvNumField(structVal))
+//@   loop 2 alt invariant forall(j, 0, rvNumField(structVal), wkDeclared(structType, j, "json") && !wkOmit(structType, j, "json") ==> old(inDom(rawMap.Fields, wkKeyStr(structType, j, "json"))))
+//@   loop 2 alt invariant refOf(rawMap.Keys) == refOf(old(rawMap.Keys))
 
 // Serialising side: fields are added to the ordered map (Add refuses a key that is already there, so
 // the no-duplicate invariant is kept); the keys array is the old one or one allocated here.
@@ -391,11 +409,11 @@ package encoding
 //@   loop 0 invariant dynType(structType) != 0
 //@   loop 0 decreases rvNumField(structVal) - i
 //@   loop 1 invariant rangeindex >= -1
-//@   loop 1 invariant rangeindex < len(parts) - 1
-//@   loop 1 invariant forall(j, 1, rangeindex + 2, splitAt(tag, ",", j) != "omitempty")
-//@   loop 1 alt invariant k >= 1 && forall(j, 1, k, splitAt(tag, ",", j) != "omitempty")
+//@   loop 1 invariant rangeindex <= splitN(tag, ",")
+//@   loop 1 invariant forall(q, 1, rangeindex + 2, splitAt(tag, ",", q) != "omitempty")
+//@   loop 1 alt invariant k >= 1 && k <= splitN(tag, ",") + 1 && forall(q, 1, k, splitAt(tag, ",", q) != "omitempty")
 //@   loop 2 invariant rangeindex >= -1
-//@   loop 2 invariant rangeindex < len(embeds)
+//@   loop 2 invariant rangeindex <= len(embeds)
 //@   loop 2 invariant embedsOK(embeds)
 //@   loop 2 invariant omInvCBOR(rawMap)
 //@   loop 2 invariant structType == wkT(structType0) && structVal == wkV(structType0, structVal0)
@@ -403,6 +421,14 @@ package encoding
 //@   loop 2 invariant wkAllEmittedCBOR(rawMap, structType, structVal, rvNumField(structVal))
 //@   loop 2 invariant rawMap.Fields == old(rawMap.Fields)
 //@   loop 2 invariant (refOf(rawMap.Keys) == refOf(old(rawMap.Keys)) || fresh(rawMap.Keys))
+//@   loop 2 alt invariant k >= 0
+//@   loop 2 alt invariant embedsOK(embeds)
+//@   loop 2 alt invariant omInvCBOR(rawMap)
+//@   loop 2 alt invariant structType == wkT(structType0) && structVal == wkV(structType0, structVal0)
+//@   loop 2 alt invariant forallT(k, int, old(inDom(rawMap.Fields, k)) ==> inDom(rawMap.Fields, k) && rawMap.Fields[k] == old(rawMap.Fields[k]))
+//@   loop 2 alt invariant wkAllEmittedCBOR(rawMap, structType, structVal, rvNumField(structVal))
+//@   loop 2 alt invariant rawMap.Fields == old(rawMap.Fields)
+//@   loop 2 alt invariant (refOf(rawMap.Keys) == refOf(old(rawMap.Keys)) || fresh(rawMap.Keys))
 
 //@ func encoding.doSerializeStructToJSON
 //@   property C05 C06 C15 C12
@@ -427,11 +453,11 @@ package encoding
 //@   loop 0 invariant dynType(structType) != 0
 //@   loop 0 decreases rvNumField(structVal) - i
 //@   loop 1 invariant rangeindex >= -1
-//@   loop 1 invariant rangeindex < len(parts) - 1
-//@   loop 1 invariant forall(j, 1, rangeindex + 2, splitAt(tag, ",", j) != "omitempty")
-//@   loop 1 alt invariant k >= 1 && forall(j, 1, k, splitAt(tag, ",", j) != "omitempty")
+//@   loop 1 invariant rangeindex <= splitN(tag, ",")
+//@   loop 1 invariant forall(q, 1, rangeindex + 2, splitAt(tag, ",", q) != "omitempty")
+//@   loop 1 alt invariant k >= 1 && k <= splitN(tag, ",") + 1 && forall(q, 1, k, splitAt(tag, ",", q) != "omitempty")
 //@   loop 2 invariant rangeindex >= -1
-//@   loop 2 invariant rangeindex < len(embeds)
+//@   loop 2 invariant rangeindex <= len(embeds)
 //@   loop 2 invariant embedsOK(embeds)
 //@   loop 2 invariant omInvJSON(rawMap)
 //@   loop 2 invariant structType == wkT(structType0) && structVal == wkV(structType0, structVal0)
@@ -439,6 +465,14 @@ package encoding
 //@   loop 2 invariant wkAllEmittedJSON(rawMap, structType, structVal, rvNumField(structVal))
 //@   loop 2 invariant rawMap.Fields == old(rawMap.Fields)
 //@   loop 2 invariant (refOf(rawMap.Keys) == refOf(old(rawMap.Keys)) || fresh(rawMap.Keys))
+//@   loop 2 alt invariant k >= 0
+//@   loop 2 alt invariant embedsOK(embeds)
+//@   loop 2 alt invariant omInvJSON(rawMap)
+//@   loop 2 alt invariant structType == wkT(structType0) && structVal == wkV(structType0, structVal0)
+//@   loop 2 alt invariant forallT(k, string, old(inDom(rawMap.Fields, k)) ==> inDom(rawMap.Fields, k) && rawMap.Fields[k] == old(rawMap.Fields[k]))
+//@   loop 2 alt invariant wkAllEmittedJSON(rawMap, structType, structVal, rvNumField(structVal))
+//@   loop 2 alt invariant rawMap.Fields == old(rawMap.Fields)
+//@   loop 2 alt invariant (refOf(rawMap.Keys) == refOf(old(rawMap.Keys)) || fresh(rawMap.Keys))
 
 // Which field names the profile: THE ordinary field whose cbor key part is "265" (eat_profile) or "-75000"
 // (psa-profile); failing that, THE ordinary field without a cbor tag that is called Profile (the postconditions speak
